@@ -119,7 +119,7 @@ CLAIMED["C08"] = (
     "exhaustion at server and client) and that each of eight named deviations - the `?`, inline await or break the code used to have at that place - "
     "violates CanariesSucceed; every fault sequence up to 2 (thorough: 3) is exported per family; all single faults and a sample of longer sequences are "
     "injected into running client + server pairs (Shadowsocks tcp_and_udp behind recording middleboxes, Trojan/VMess over tls and wss, VMess over tcp and "
-    "ws; descriptor limit 160; silent peers stay connected), histories accumulate on the same processes, and after each sequence a fresh TCP flow, a "
+    "ws; descriptor limit 360; silent peers stay connected), histories accumulate on the same processes, and after each sequence a fresh TCP flow, a "
     "fresh datagram exchange and an exchange on the session the faults touched must work; TLC validates the recorded runs.",
     TB + "; Engine B (lib/faults.py); loopback; a canary gets two attempts", "5.8")
 CLAIMED["C16"] = (
